@@ -281,10 +281,12 @@ func (w *Workspace) updateFileLocked(path, content string) {
 		return
 	}
 	adopted := false
-	if !w.isWorkspaceFileLocked(path) {
-		// A file that did not exist when the members' include directives were last
-		// expanded may be matched by one of their glob patterns now.
-		if !w.adoptByGlobLocked(path) {
+	if w.index.FileIndex(path) == nil {
+		// A file the workspace has not indexed yet did not exist when the members'
+		// include directives were last expanded: it may be matched by one of their glob
+		// patterns now, whether or not a literal include names it as well.
+		byGlob := w.adoptByGlobLocked(path)
+		if !byGlob && !w.isWorkspaceFileLocked(path) {
 			return
 		}
 		adopted = true
